@@ -950,6 +950,12 @@ impl StorageEngine {
     }
     
     pub fn zincrby(&self, db: DatabaseIndex, key: Key, member: Vec<u8>, increment: f64) -> Result<f64> {
+        if increment.is_nan() {
+            return Err(FerrousError::Command(CommandError::Generic(
+                "value is not a valid float".to_string()
+            )));
+        }
+        
         let shard = self.get_shard(db, &key)?;
         let mut shard_guard = shard.write().unwrap();
         
@@ -960,6 +966,13 @@ impl StorageEngine {
                         Some(curr_score) => curr_score + increment,
                         None => increment,
                     };
+                    
+                    // inf + -inf is not a number: refuse and leave the member as it is
+                    if new_score.is_nan() {
+                        return Err(FerrousError::Command(CommandError::Generic(
+                            "resulting score is not a number (NaN)".to_string()
+                        )));
+                    }
                     
                     skiplist.insert(member, new_score);
                     shard_guard.mark_modified(&key);
